@@ -182,7 +182,7 @@ static void check_icdf(report& r, std::vector<T> const& x, std::string const& id
             continue;
         }
         long double const want = static_cast<long double>(b) * (static_cast<long double>(hi) - static_cast<long double>(lo));
-        if (std::fabs(static_cast<long double>(w) - want) > 4 * std::numeric_limits<T>::epsilon() * want)
+        if (!(std::fabs(static_cast<long double>(w) - want) <= 4 * std::numeric_limits<T>::epsilon() * want))
             r.violate("icdf-weight", id, how + " -> weight " + vf::dec(w) + " expected bins*width=" + vf::dec(want));
         // the point must be where the piecewise-linear inverse CDF puts it
         if (u < T(1))
@@ -192,7 +192,7 @@ static void check_icdf(report& r, std::vector<T> const& x, std::string const& id
             long double const wantp = static_cast<long double>(x[sz(std::floor(pos))])
                 + frac * (static_cast<long double>(x[sz(std::floor(pos)) + 1]) - static_cast<long double>(x[sz(std::floor(pos))]));
             // the rounding error of u*bins (up to bins*eps/2) is scaled by the width of the bin
-            if (std::fabs(static_cast<long double>(rn[0]) - wantp) > 4 * std::numeric_limits<T>::epsilon() * (want + 1))
+            if (!(std::fabs(static_cast<long double>(rn[0]) - wantp) <= 4 * std::numeric_limits<T>::epsilon() * (want + 1)))
                 r.violate("icdf-point-position", id, how + " -> point " + vf::dec(rn[0]) + " expected " + vf::dec(wantp));
         }
         r.outcome("icdf (bins,bin)", (b << 8) | bin[0]);
